@@ -159,3 +159,26 @@ _CI = z3.Int("ci!")
 def map_union(l, S):
     """the term of `[s | S for s in l]` for a list term l"""
     return ListSpace.mk(ListSpace.len(l), z3.Lambda([_CI], union(ListSpace.at(l)[_CI], S)))
+
+
+# ---------------------------------------------------------------------- list membership (definitional axioms)
+ListInt = TList(TInt)
+MemI = z3.Function("MemI", ListInt.sort(), I, B)          # MemI(l, x)  :=  exists k. 0 <= k < len(l) and l[k] = x
+idxof = z3.Function("idxofI", ListInt.sort(), I, I)       # skolem witness of the definition
+_li, _xi, _ni, _ai, _si = z3.Const("l!m", ListInt.sort()), z3.Int("x!m"), z3.Int("n!m"), z3.Const("a!m", z3.ArraySort(I, I)), z3.Int("s!m")
+_ki = z3.Int("k!m")
+AX_MEM = [
+    # elimination: a member has a position
+    z3.ForAll([_li, _xi], z3.Implies(MemI(_li, _xi), z3.And(0 <= idxof(_li, _xi), idxof(_li, _xi) < ListInt.len(_li),
+                                                             ListInt.at(_li)[idxof(_li, _xi)] == _xi)), patterns=[MemI(_li, _xi)]),
+    # introduction: every position holds a member
+    z3.ForAll([_li, _ki], z3.Implies(z3.And(0 <= _ki, _ki < ListInt.len(_li)), MemI(_li, ListInt.at(_li)[_ki])),
+              patterns=[ListInt.at(_li)[_ki]]),
+    # append (consequence of the definition)
+    z3.ForAll([_ni, _ai, _si, _xi], z3.Implies(_ni >= 0, MemI(ListInt.mk(_ni + 1, z3.Store(_ai, _ni, _si)), _xi) ==
+                                               z3.Or(MemI(ListInt.mk(_ni, _ai), _xi), _xi == _si)),
+              patterns=[MemI(ListInt.mk(_ni + 1, z3.Store(_ai, _ni, _si)), _xi)]),
+    # the empty list has no member
+    z3.ForAll([_li, _xi], z3.Implies(ListInt.len(_li) <= 0, z3.Not(MemI(_li, _xi))), patterns=[MemI(_li, _xi)]),
+]
+LEMMAS["def.MemI"] = "list membership: definitional axioms (elimination with a skolem position, introduction, append, empty)"
